@@ -117,7 +117,7 @@ Section Select.
   (** the stream an opened file is parsed into: the events of the loop, the record pending
       at the end, and how the scanner ended *)
   Definition stream_of (o : opened) : list (event NM) * option (pnode NM) * scan_end :=
-    let '(data, f) := match o with ONone => ([], NoFault) | OData d f => (d, f) | ODir => ([], FailAt 0) end in
+    let '(data, f) := match o with OData d f => (d, f) | ODir => ([], FailAt 0) end in
     let '(lines, fin) := scan data f in
     let '(evs, last) := parse_lines NM lines in
     (evs, last, fin).
